@@ -704,6 +704,70 @@ def run_case(case):
                          {"measurement": mp, "expected": np.round(np.asarray(exp, dtype=float), 8).tolist(),
                           "observed": np.round(g, 8).tolist(),
                           "shots_per_history": {str(list(hh)): c for hh, c in leaf_counts.items()}})
+    # ---- mode C, ordinary observables: the terminal draws of every history, weighted by its shots -------
+    if results is not None and mode == "C" and not violations and locals().get("reconstructable", [False])[0]:
+        leaf_state = {b.h: b.state for b in tree.leaves}
+        term_offers = [o for o in hub.offers if o["kind"] == "choice" and len(o["p"]) == 2**n]
+        nv = sum(leaf_counts.values())
+        for mp, got in zip(mps, results):
+            kind = mp[0]
+            if kind not in ("expval", "var", "probs") or nv == 0:
+                continue
+            atoms = c29._atoms(mp)
+            if len(atoms) != 1:
+                continue
+            atom = atoms[0]
+            key = json.dumps(atom)
+            vmap = c29._value_map(atom, n)
+            vals = []
+            ok_all = True
+            for hh, cnt in leaf_counts.items():
+                if cnt == 0:
+                    continue
+                R = c29._reference_dist(atom, leaf_state[hh], n)
+                matches = {}
+                for off in term_offers:
+                    if off["size"] != cnt:
+                        continue
+                    D = {}
+                    for i, q in enumerate(off["p"]):
+                        if q > 1e-13:
+                            D[vmap[i]] = D.get(vmap[i], 0.0) + float(q)
+                    if c29._dist_close(D, R):
+                        matches[tuple(vmap[int(i)] for i in off["idx"])] = off
+                # which draw fed this measurement on this history must be beyond doubt: an internal node's
+                # draw (or another measurement's) can look the same under this observable's value map
+                if len(matches) != 1:
+                    ok_all = False
+                    break
+                vals.extend(next(iter(matches)))
+            if not ok_all or len(vals) != nv:
+                counters["tree_terminal_draws_not_attributable"] = counters.get("tree_terminal_draws_not_attributable", 0) + 1
+                continue
+            counters["tree_observable_results_checked"] = counters.get("tree_observable_results_checked", 0) + 1
+            try:
+                g = np.real(np.asarray(got)).astype(float)
+            except Exception:  # noqa: BLE001
+                continue
+            if np.isnan(g).any():
+                continue
+            if kind == "probs":
+                k_ = len(mp[1])
+                exp = np.zeros(2**k_)
+                for v in vals:
+                    ix = 0
+                    for bit in v:
+                        ix = (ix << 1) | int(bit)
+                    exp[ix] += 1.0 / nv
+            elif kind == "expval":
+                exp = float(np.mean(np.array(vals, dtype=float)))
+            else:
+                exp = float(np.var(np.array(vals, dtype=float)))
+            if np.asarray(exp).shape != g.shape or not np.allclose(g, exp, atol=1e-9):
+                viol("tree_statistic_is_not_the_function_of_the_decided_draws", {"mp": kind},
+                     {"measurement": mp, "expected": np.round(np.asarray(exp, dtype=float), 8).tolist(),
+                      "observed": np.round(g, 8).tolist(),
+                      "shots_per_history": {str(list(hh)): c_ for hh, c_ in leaf_counts.items()}})
     # ---------------------------------------------------------------------------------- mode D ----------
     if results is not None and mode == "D":
         shots = case["shots"]
